@@ -420,6 +420,14 @@ fn std_soa(apex: &DomainName, minimum: u32) -> SOA {
 }
 
 /// Labels holding octet `b` alone, first, in the middle, last.
+/// Labels that spell a word of the zone-file syntax (control entries, class
+/// and type mnemonics, numbers): written relative to the apex they stand
+/// where the reader expects that syntax.
+const KEYWORD_LABELS: [&[u8]; 14] = [
+    b"$origin", b"$include", b"$ttl", b"$generate", b"in", b"ch", b"a", b"ns", b"soa", b"cname", b"txt", b"300", b"0",
+    b"4294967295",
+];
+
 fn labels_with(b: u8) -> Vec<Vec<u8>> {
     vec![vec![b], vec![b, b'x', b'y'], vec![b'x', b, b'y'], vec![b'x', b'y', b]]
 }
@@ -449,6 +457,9 @@ fn api_corpus(level: u8) -> Vec<(&'static str, ApiZone)> {
             }
             label_sets.push(l);
         }
+    }
+    for k in KEYWORD_LABELS {
+        label_sets.push(k.to_vec());
     }
     // (2) ordered pairs of the special octets
     for x in SPECIALS {
@@ -610,6 +621,9 @@ fn text_corpus(level: u8) -> Vec<(&'static str, String)> {
             labels.push(vec![x, y]);
             labels.push(vec![b'a', x, y, b'z']);
         }
+    }
+    for k in KEYWORD_LABELS {
+        labels.push(k.to_vec());
     }
     for l in &labels {
         for f in label_forms(l) {
